@@ -10,6 +10,7 @@ import (
 	"io"
 	"regexp"
 	"runtime"
+	"sort"
 	"strconv"
 
 	"seehuhn.de/go/pdf"
@@ -344,8 +345,18 @@ func walk(img []byte, mode pdf.ReaderErrorHandling, password string, eofAtEnd bo
 
 const drainCap = 8 << 20
 
-func walkReader(r *pdf.Reader, refs map[pdf.Reference]bool, st *stats, full bool) {
+func sortedRefs(refs map[pdf.Reference]bool) []pdf.Reference {
+	out := make([]pdf.Reference, 0, len(refs))
 	for ref := range refs {
+		out = append(out, ref)
+	}
+	sort.Slice(out, func(i, j int) bool { return out[i] < out[j] })
+	return out
+}
+
+func walkReader(r *pdf.Reader, refsSet map[pdf.Reference]bool, st *stats, full bool) {
+	refs := sortedRefs(refsSet)
+	for _, ref := range refs {
 		st.gets++
 		obj, err := r.Get(ref, true)
 		if err != nil {
@@ -404,7 +415,7 @@ func walkReader(r *pdf.Reader, refs map[pdf.Reference]bool, st *stats, full bool
 	}
 	// fonts reachable by number as well (type-confused objects included)
 	k := 0
-	for ref := range refs {
+	for _, ref := range refs {
 		k++
 		if k > 60 {
 			break
